@@ -152,6 +152,9 @@ def source(tokeniser: 'Tokeniser') -> Generator[Flow4Source | Flow6Source, None,
         ip, netmask, offset = data.split('/')
         _check_flow_prefix(data, int(netmask), IPv6.BITS)
         yield Flow6Source.make_prefix6(IP.pton(ip), int(netmask), int(offset))
+    else:
+        # nothing recognised: the rule would silently lose this match and cover every source
+        raise ValueError(f"'{data}' is not a valid flow source\n  Format: <ipv4>/<length>, <ipv6>/<length> or <ipv6>/<length>/<offset>")
 
 
 def destination(tokeniser: 'Tokeniser') -> Generator[Flow4Destination | Flow6Destination, None, None]:
@@ -176,6 +179,9 @@ def destination(tokeniser: 'Tokeniser') -> Generator[Flow4Destination | Flow6Des
         ip, netmask, offset = data.split('/')
         _check_flow_prefix(data, int(netmask), IPv6.BITS)
         yield Flow6Destination.make_prefix6(IP.pton(ip), int(netmask), int(offset))
+    else:
+        # nothing recognised: the rule would silently lose this match and cover every destination
+        raise ValueError(f"'{data}' is not a valid flow destination\n  Format: <ipv4>/<length>, <ipv6>/<length> or <ipv6>/<length>/<offset>")
 
 
 # Expressions
